@@ -5,9 +5,10 @@
     S3Client::list_prefix (prefix_offset), the ListObjectsV2 paging loop against a model of
     the listing server (the stand-in vplib/s3stub.py), S3Storage::list, the InventoryIter scan,
     keys of a directory tree.
-    Part B (C16): the mutating request programs of write_new_object / write_new_version
-    (upload_all_files_with_rollback, install_inventory_in_root_with_rollback, do_with_rollback,
-    the declaration swap of an upgrade) in a state + error monad with a fault oracle
+    Part B (C16): the request programs of write_new_object / write_new_version
+    (upload_all_files_with_rollback, the reads of what a version commit replaces,
+    install_inventory_in_root_with_rollback, do_with_rollback, the declaration swap of an
+    upgrade, the undoing of a failed install) in a state + error monad with a fault oracle
     [fa : option N] = "the k-th mutating request of this commit fails and has no effect". *)
 From Rocfl Require Export Base.Bytes.
 From Rocfl Require Import Generated.Consts.
@@ -353,18 +354,26 @@ Fixpoint bk_get (k : bytes) (bk : bucket) : option bytes :=
   end.
 Definition bk_keys (bk : bucket) : list bytes := map fst bk.
 
-(** the mutating requests (reads and listings are not counted by the fault oracle) *)
+(** the requests of a commit: the mutating ones (numbered by the fault oracle) and the GETs by
+    which write_new_version reads what it is about to replace (s3.rs:591-602; logged, not
+    numbered: C16 quantifies over failing PUT / multipart / DELETE requests).  Listings are
+    neither logged nor numbered. *)
 Inductive req :=
 | RPut (k : bytes)
 | RDelete (k : bytes)
 | RMpCreate (k : bytes)
 | RMpPart (k : bytes) (n : N)
 | RMpComplete (k : bytes)
-| RMpAbort (k : bytes).
+| RMpAbort (k : bytes)
+| RGet (k : bytes).
 
 Record st := mkSt { st_b : bucket; st_n : N; st_log : list req }.
 
-(** one mutating request: logged and counted; the request numbered [fa] fails without effect *)
+(** one mutating request: logged and counted; the request numbered [fa] fails without effect.
+    The oracle names ONE request: a second failure in the same commit (e.g. of a request that
+    puts something back during the rollback) is outside the single-failure model of C16; the
+    rollback programs below nevertheless treat a failed request as the code does (logged by
+    [error!], ignored). *)
 Definition mreq (fa : option N) (r : req) (eff : bucket -> bucket) (s : st) : res unit * st :=
   let failed := match fa with Some k => st_n s =? k | None => false end in
   (if failed then Err else Ok tt,
@@ -372,7 +381,13 @@ Definition mreq (fa : option N) (r : req) (eff : bucket -> bucket) (s : st) : re
 
 Definition same (bk : bucket) : bucket := bk.
 
-(** number of upload_part requests: reads of PART_SIZE bytes until end of file, s3.rs:1042-1074 *)
+(** S3Client::get_object, s3.rs:942-969: [None] for NoSuchKey.  A read: logged, not numbered,
+    never failed by the oracle. *)
+Definition get_object (cprefix path : bytes) (s : st) : option bytes * st :=
+  let key := join cprefix path in
+  (bk_get key (st_b s), mkSt (st_b s) (st_n s) (st_log s ++ [RGet key])).
+
+(** number of upload_part requests: reads of PART_SIZE bytes until end of file, s3.rs:1091-1150 *)
 Definition n_parts (len : N) : N := (len + K_S3_PART_SIZE - 1) / K_S3_PART_SIZE.
 
 Fixpoint mp_parts (fa : option N) (key : bytes) (i : N) (todo : nat) (s : st) : res unit * st :=
@@ -381,11 +396,11 @@ Fixpoint mp_parts (fa : option N) (key : bytes) (i : N) (todo : nat) (s : st) : 
   | S t =>
       match mreq fa (RMpPart key i) same s with
       | (Ok _, s1) => mp_parts fa key (i + 1) t s1
-      | (_, s1) => (Err, snd (mreq fa (RMpAbort key) same s1))         (* abort_multipart, s3.rs:1062-1065 *)
+      | (_, s1) => (Err, snd (mreq fa (RMpAbort key) same s1))         (* abort_multipart, s3.rs:1139-1142 *)
       end
   end.
 
-(** multipart_put_file, s3.rs:997-1091: a failed create or complete is returned as is (no abort) *)
+(** multipart_put_file, s3.rs:1074-1168: a failed create or complete is returned as is (no abort) *)
 Definition multipart_put (fa : option N) (key : bytes) (len : N) (tok : bytes) (s : st) : res unit * st :=
   match mreq fa (RMpCreate key) same s with
   | (Ok _, s1) =>
@@ -396,23 +411,37 @@ Definition multipart_put (fa : option N) (key : bytes) (len : N) (tok : bytes) (
   | (_, s1) => (Err, s1)
   end.
 
-(** put_object_file, s3.rs:964-995 *)
+(** put_object_file, s3.rs:1041-1072 *)
 Definition put_object_file (fa : option N) (cprefix path : bytes) (len : N) (tok : bytes) (s : st) : res unit * st :=
   let key := join cprefix path in
   if K_S3_PART_SIZE <? len then multipart_put fa key len tok s
   else mreq fa (RPut key) (bk_put key tok) s.
 
-(** put_object_bytes, s3.rs:939-962 *)
+(** put_object_bytes, s3.rs:1016-1039 *)
 Definition put_object_bytes (fa : option N) (cprefix path tok : bytes) (s : st) : res unit * st :=
   let key := join cprefix path in mreq fa (RPut key) (bk_put key tok) s.
 
-(** delete_object, s3.rs:924-937 *)
+(** delete_object, s3.rs:1001-1014 *)
 Definition delete_object (fa : option N) (cprefix path : bytes) (s : st) : res unit * st :=
   let key := join cprefix path in mreq fa (RDelete key) (bk_remove key) s.
 
 Record ufile := mkUf { uf_rel : bytes; uf_len : N; uf_tok : bytes }.
 
-(** the closure of upload_all_files_with_rollback, s3.rs:282-301, over the WalkDir sequence *)
+(** the sort key of upload_all_files_with_rollback, s3.rs:294-300 (/repo commit 4953bf6): the
+    name relative to the uploaded directory is INVENTORY_FILE -> 1, begins with
+    INVENTORY_SIDECAR_PREFIX -> 2, anything else (every name with a directory part) -> 0 *)
+Definition upload_rank (rel : bytes) : N :=
+  if bytes_eqb rel K_INVENTORY_FILE then 1
+  else if starts_with K_INVENTORY_SIDECAR_PREFIX rel then 2 else 0.
+Definition rank_is (n : N) (f : ufile) : bool := upload_rank (uf_rel f) =? n.
+
+(** [files.sort_by_key] (stable) on a key with three values: the files of rank 0 in walk order,
+    then those of rank 1, then those of rank 2.  For a new object the last two are the root
+    inventory and its sidecar, for a version directory the version inventory and its sidecar. *)
+Definition upload_order (files : list ufile) : list ufile :=
+  filter (rank_is 0) files ++ filter (rank_is 1) files ++ filter (rank_is 2) files.
+
+(** the upload loop of upload_all_files_with_rollback, s3.rs:302-315, over the sorted files *)
 Fixpoint upload_loop (fa : option N) (cprefix dst : bytes) (files : list ufile) (done : list bytes) (s : st)
   : (res unit * list bytes) * st :=
   match files with
@@ -425,14 +454,14 @@ Fixpoint upload_loop (fa : option N) (cprefix dst : bytes) (files : list ufile) 
       end
   end.
 
-(** the rollback of do_with_rollback, s3.rs:338-342: failures of the deletes are only logged *)
+(** the rollback of do_with_rollback, s3.rs:354-358: failures of the deletes are only logged *)
 Fixpoint rollback (fa : option N) (cprefix : bytes) (done : list bytes) (s : st) : st :=
   match done with
   | [] => s
   | p :: r => rollback fa cprefix r (snd (delete_object fa cprefix p s))
   end.
 
-(** do_with_rollback, s3.rs:332-347 *)
+(** do_with_rollback, s3.rs:348-363 *)
 Definition do_with_rollback (fa : option N) (cprefix : bytes)
            (body : list bytes -> st -> (res unit * list bytes) * st) (done : list bytes) (s : st)
   : res (list bytes) * st :=
@@ -441,18 +470,22 @@ Definition do_with_rollback (fa : option N) (cprefix : bytes)
   | ((_, d), s1) => (Err, rollback fa cprefix d s1)
   end.
 
+(** upload_all_files_with_rollback, s3.rs:276-318; [files] = the WalkDir sequence of the
+    regular files of the source directory (s3.rs:284-289) *)
 Definition upload_all (fa : option N) (cprefix dst : bytes) (files : list ufile) (s : st) :=
-  do_with_rollback fa cprefix (upload_loop fa cprefix dst files) [] s.
+  do_with_rollback fa cprefix (upload_loop fa cprefix dst (upload_order files)) [] s.
 
-(** the closure of install_inventory_in_root_with_rollback, s3.rs:320-327 *)
+(** the closure of install_inventory_in_root_with_rollback, s3.rs:337-343 (/repo commit
+    9053efb): the two keys written here replace the root inventory pair of the previous
+    version and are NOT recorded in [done] - do_with_rollback must not delete them, the
+    caller puts the previous contents back *)
 Definition install_body (fa : option N) (cprefix inv_dst sc_dst : bytes) (inv sc : ufile)
            (done : list bytes) (s : st) : (res unit * list bytes) * st :=
   match put_object_file fa cprefix inv_dst (uf_len inv) (uf_tok inv) s with
   | (Ok _, s1) =>
-      let done1 := done ++ [inv_dst] in
       match put_object_file fa cprefix sc_dst (uf_len sc) (uf_tok sc) s1 with
-      | (Ok _, s2) => ((Ok tt, done1), s2)
-      | (_, s2) => ((Err, done1), s2)
+      | (Ok _, s2) => ((Ok tt, done), s2)
+      | (_, s2) => ((Err, done), s2)
       end
   | (_, s1) => ((Err, done), s1)
   end.
@@ -471,10 +504,13 @@ Record nv_input := mkNv {
   nv_files : list ufile;       (* WalkDir of the staged version directory (its inventory and sidecar included) *)
   nv_inv : ufile;              (* staged vN/inventory.json; uf_rel = INVENTORY_FILE *)
   nv_sidecar : ufile;          (* staged vN/inventory.json.<alg>; uf_rel = its file name *)
+  nv_old_sidecar : bytes;      (* paths::sidecar_name(existing_inventory.digest_algorithm), s3.rs:587-590; rocfl never
+                                  changes the digest algorithm of an object (it is set by create_object only,
+                                  repo.rs:616), so this is the name of nv_sidecar *)
   nv_upgrade : option (bytes * bytes)   (* Some (new declaration file name, content) iff the type declaration changed *)
 }.
 
-(** find_files, s3.rs:380-389 *)
+(** find_files, s3.rs:396-405 *)
 Definition find_files (keys : list bytes) (cprefix dir name_prefix : bytes) : res (list bytes) :=
   let p := join dir name_prefix in
   match list_all keys cprefix dir true with
@@ -493,38 +529,100 @@ Fixpoint delete_each (fa : option N) (cprefix : bytes) (paths : list bytes) (s :
               end
   end.
 
-(** the declaration swap of an upgrade, s3.rs:574-585 (no rollback) *)
-Definition swap_declaration (fa : option N) (cprefix root : bytes) (up : option (bytes * bytes)) (s : st)
-  : res unit * st :=
-  match up with
-  | None => (Ok tt, s)
-  | Some (name, content) =>
-      match find_files (bk_keys (st_b s)) cprefix root K_OBJECT_NAMASTE_FILE_PREFIX with
-      | Ok olds =>
-          match put_object_bytes fa cprefix (join root name) content s with
-          | (Ok _, s1) => delete_each fa cprefix olds s1
-          | (_, s1) => (Err, s1)
-          end
-      | Err => (Err, s)
-      | Panic => (Panic, s)
-      end
+(** s3.rs:599-602: the old declaration files are read, in listing order *)
+Fixpoint get_each (cprefix : bytes) (paths : list bytes) (s : st) : list (bytes * option bytes) * st :=
+  match paths with
+  | [] => ([], s)
+  | p :: r => let (c, s1) := get_object cprefix p s in
+              let (l, s2) := get_each cprefix r s1 in ((p, c) :: l, s2)
   end.
 
-(** write_new_version, s3.rs:531-588, from the emptiness test of the version prefix on (the
-    head comparison before it reads only) *)
+(** the path of the new declaration, s3.rs:603-606 *)
+Definition new_namaste (root : bytes) (up : option (bytes * bytes)) : option bytes :=
+  match up with Some (name, _) => Some (join root name) | None => None end.
+Definition is_path (p : bytes) (o : option bytes) : bool :=
+  match o with Some q => bytes_eqb p q | None => false end.
+
+(** the closure [install], s3.rs:608-626: the root inventory, its sidecar, and on an upgrade the
+    new declaration (write_object_namaste, s3.rs:365-373), then the DELETE of every old
+    declaration that is not the new one; the first failure ends it *)
+Definition install_version (fa : option N) (cprefix : bytes) (i : nv_input) (olds : list bytes) (s : st)
+  : res unit * st :=
+  let inv_dst := join (nv_root i) K_INVENTORY_FILE in
+  let sc_dst := join (nv_root i) (uf_rel (nv_sidecar i)) in
+  match do_with_rollback fa cprefix (install_body fa cprefix inv_dst sc_dst (nv_inv i) (nv_sidecar i)) [] s with
+  | (Ok _, s1) =>
+      match nv_upgrade i with
+      | None => (Ok tt, s1)
+      | Some (name, content) =>
+          match put_object_bytes fa cprefix (join (nv_root i) name) content s1 with
+          | (Ok _, s2) =>
+              delete_each fa cprefix
+                (filter (fun o => negb (is_path o (new_namaste (nv_root i) (nv_upgrade i)))) olds) s2
+          | (_, s2) => (Err, s2)
+          end
+      end
+  | (_, s1) => (Err, s1)
+  end.
+
+(** [restore], s3.rs:629-638: what had been read is PUT back (put_object_bytes: one PUT whatever
+    the size); a key that did not exist is left alone; a failure is only logged *)
+Definition restore_object (fa : option N) (cprefix path : bytes) (content : option bytes) (s : st) : st :=
+  match content with
+  | Some c => snd (put_object_bytes fa cprefix path c s)
+  | None => s
+  end.
+Fixpoint restore_each (fa : option N) (cprefix : bytes) (prev : list (bytes * option bytes)) (s : st) : st :=
+  match prev with
+  | [] => s
+  | (p, c) :: r => restore_each fa cprefix r (restore_object fa cprefix p c s)
+  end.
+
+(** the error branch of write_new_version, s3.rs:628-660 (/repo commit 9053efb): DELETE the new
+    declaration unless it replaced one of the same name, PUT back the old declarations, the
+    previous root inventory and the previous root sidecar, DELETE the uploaded version files *)
+Definition undo_install (fa : option N) (cprefix : bytes) (i : nv_input) (olds : list bytes)
+           (prev_namastes : list (bytes * option bytes)) (prev_inv prev_sc : option bytes)
+           (uploaded : list bytes) (s : st) : st :=
+  let s1 := match new_namaste (nv_root i) (nv_upgrade i) with
+            | Some nn => if existsb (bytes_eqb nn) olds then s else snd (delete_object fa cprefix nn s)
+            | None => s
+            end in
+  let s2 := restore_each fa cprefix prev_namastes s1 in
+  let s3 := restore_object fa cprefix (join (nv_root i) K_INVENTORY_FILE) prev_inv s2 in
+  let s4 := restore_object fa cprefix (join (nv_root i) (nv_old_sidecar i)) prev_sc s3 in
+  rollback fa cprefix uploaded s4.
+
+(** write_new_version after the upload, s3.rs:582-664: the reads of what will be replaced
+    (s3.rs:591-602), the install, and its undoing when it fails.  A failed listing of find_files
+    (s3.rs:595) returns before anything is replaced. *)
+Definition finish_version (fa : option N) (cprefix : bytes) (i : nv_input) (uploaded : list bytes) (s1 : st)
+  : res unit * st :=
+  let (prev_inv, s2) := get_object cprefix (join (nv_root i) K_INVENTORY_FILE) s1 in
+  let (prev_sc, s3) := get_object cprefix (join (nv_root i) (nv_old_sidecar i)) s2 in
+  match (match nv_upgrade i with
+         | Some _ => find_files (bk_keys (st_b s3)) cprefix (nv_root i) K_OBJECT_NAMASTE_FILE_PREFIX
+         | None => Ok []
+         end) with
+  | Ok olds =>
+      let (prev_namastes, s4) := get_each cprefix olds s3 in
+      match install_version fa cprefix i olds s4 with
+      | (Ok _, s5) => (Ok tt, s5)
+      | (_, s5) => (Err, undo_install fa cprefix i olds prev_namastes prev_inv prev_sc uploaded s5)
+      end
+  | Err => (Err, s3)
+  | Panic => (Panic, s3)
+  end.
+
+(** write_new_version, s3.rs:547-665, from the emptiness test of the version prefix on (the
+    head comparison before it reads only): upload of the version directory (its own inventory
+    and sidecar last), then [finish_version] *)
 Definition write_new_version (fa : option N) (cprefix : bytes) (i : nv_input) (s : st) : res unit * st :=
   let vdst := join (nv_root i) (nv_vstr i) in
   match listing_empty (list_all (bk_keys (st_b s)) cprefix vdst true) with
   | Ok true =>
       match upload_all fa cprefix vdst (nv_files i) s with
-      | (Ok uploaded, s1) =>
-          let inv_dst := join (nv_root i) K_INVENTORY_FILE in
-          let sc_dst := join (nv_root i) (uf_rel (nv_sidecar i)) in
-          match do_with_rollback fa cprefix
-                  (install_body fa cprefix inv_dst sc_dst (nv_inv i) (nv_sidecar i)) uploaded s1 with
-          | (Ok _, s2) => swap_declaration fa cprefix (nv_root i) (nv_upgrade i) s2
-          | (_, s2) => (Err, s2)
-          end
+      | (Ok uploaded, s1) => finish_version fa cprefix i uploaded s1
       | (_, s1) => (Err, s1)
       end
   | Ok false => (Err, s)
@@ -532,7 +630,8 @@ Definition write_new_version (fa : option N) (cprefix : bytes) (i : nv_input) (s
   | Panic => (Panic, s)
   end.
 
-(** write_new_object, s3.rs:483-524: the whole staged object directory in WalkDir order *)
+(** write_new_object, s3.rs:499-540, from the "existing files" test on: the whole staged object
+    directory, its root inventory and then its root sidecar last (upload_order) *)
 Definition write_new_object (fa : option N) (cprefix root : bytes) (files : list ufile) (s : st) : res unit * st :=
   match listing_empty (list_all (bk_keys (st_b s)) cprefix root true) with
   | Ok true =>
@@ -559,13 +658,78 @@ Definition put_reqs (key : bytes) (len : N) : list req :=
 
 Definition req_key (r : req) : bytes :=
   match r with
-  | RPut k | RDelete k | RMpCreate k | RMpPart k _ | RMpComplete k | RMpAbort k => k
+  | RPut k | RDelete k | RMpCreate k | RMpPart k _ | RMpComplete k | RMpAbort k | RGet k => k
   end.
 (** the request that makes a key visible *)
 Definition stores_key (r : req) : option bytes :=
   match r with RPut k | RMpComplete k => Some k | _ => None end.
+Definition is_get (r : req) : bool := match r with RGet _ => true | _ => false end.
 
 Definition init_st (bk : bucket) : st := mkSt bk 0 [].
+
+(* ---- historical note only: the commit programs BEFORE /repo commits 4953bf6 and 9053efb, used by
+   nothing but the lemmas [..._before_fix] in Proofs/S3CommitFacts.v (they show that the old
+   behaviour violated C16).  Uploads in plain walk order; the root inventory key recorded in
+   [done], so that a failed sidecar PUT made do_with_rollback delete it; declaration swap
+   without any rollback. *)
+Definition upload_all_before_fix (fa : option N) (cprefix dst : bytes) (files : list ufile) (s : st) :=
+  do_with_rollback fa cprefix (upload_loop fa cprefix dst files) [] s.
+Definition install_body_before_fix (fa : option N) (cprefix inv_dst sc_dst : bytes) (inv sc : ufile)
+           (done : list bytes) (s : st) : (res unit * list bytes) * st :=
+  match put_object_file fa cprefix inv_dst (uf_len inv) (uf_tok inv) s with
+  | (Ok _, s1) =>
+      let done1 := done ++ [inv_dst] in
+      match put_object_file fa cprefix sc_dst (uf_len sc) (uf_tok sc) s1 with
+      | (Ok _, s2) => ((Ok tt, done1), s2)
+      | (_, s2) => ((Err, done1), s2)
+      end
+  | (_, s1) => ((Err, done), s1)
+  end.
+Definition swap_declaration_before_fix (fa : option N) (cprefix root : bytes) (up : option (bytes * bytes)) (s : st)
+  : res unit * st :=
+  match up with
+  | None => (Ok tt, s)
+  | Some (name, content) =>
+      match find_files (bk_keys (st_b s)) cprefix root K_OBJECT_NAMASTE_FILE_PREFIX with
+      | Ok olds =>
+          match put_object_bytes fa cprefix (join root name) content s with
+          | (Ok _, s1) => delete_each fa cprefix olds s1
+          | (_, s1) => (Err, s1)
+          end
+      | Err => (Err, s)
+      | Panic => (Panic, s)
+      end
+  end.
+Definition write_new_version_before_fix (fa : option N) (cprefix : bytes) (i : nv_input) (s : st) : res unit * st :=
+  let vdst := join (nv_root i) (nv_vstr i) in
+  match listing_empty (list_all (bk_keys (st_b s)) cprefix vdst true) with
+  | Ok true =>
+      match upload_all_before_fix fa cprefix vdst (nv_files i) s with
+      | (Ok uploaded, s1) =>
+          let inv_dst := join (nv_root i) K_INVENTORY_FILE in
+          let sc_dst := join (nv_root i) (uf_rel (nv_sidecar i)) in
+          match do_with_rollback fa cprefix
+                  (install_body_before_fix fa cprefix inv_dst sc_dst (nv_inv i) (nv_sidecar i)) uploaded s1 with
+          | (Ok _, s2) => swap_declaration_before_fix fa cprefix (nv_root i) (nv_upgrade i) s2
+          | (_, s2) => (Err, s2)
+          end
+      | (_, s1) => (Err, s1)
+      end
+  | Ok false => (Err, s)
+  | Err => (Err, s)
+  | Panic => (Panic, s)
+  end.
+Definition write_new_object_before_fix (fa : option N) (cprefix root : bytes) (files : list ufile) (s : st) : res unit * st :=
+  match listing_empty (list_all (bk_keys (st_b s)) cprefix root true) with
+  | Ok true =>
+      match upload_all_before_fix fa cprefix root files s with
+      | (Ok _, s1) => (Ok tt, s1)
+      | (_, s1) => (Err, s1)
+      end
+  | Ok false => (Err, s)
+  | Err => (Err, s)
+  | Panic => (Panic, s)
+  end.
 
 (* ------------------------------------------------------------------ C15: purge_object *)
 
